@@ -267,6 +267,14 @@ pub fn run(thorough: bool) -> i32 {
             }
         }
     }
+    // stream sources handed over at a non-zero position, no MD5
+    for scheme in [Scheme::NoCode, Scheme::Rs28, Scheme::Rs28Us, Scheme::RaptorQ, Scheme::Raptor] {
+        for (b, e) in [(5u16, 4u16), (4, 2)] {
+            for l in 2..=3 * b as usize * e as usize + 1 {
+                acases.push((scheme, 5u8, b, e, l, 0u8));
+            }
+        }
+    }
     // many-block objects: block counts around the receiver's pre-allocation limits (2048 and 2 x 2048 blocks),
     // the sender cuts N blocks and the receiver must believe in N as well
     for scheme in [Scheme::NoCode, Scheme::Rs28, Scheme::Rs28Us, Scheme::RaptorQ, Scheme::Raptor] {
@@ -453,8 +461,15 @@ fn sender_receiver_agree(scheme: Scheme, sess_kind: u8, b: u16, e: u16, l: usize
     o.cenc = cenc;
     o.text = cenc != 0;
     o.inband_cenc = true;
+    // session kind 5: the object comes from a stream handed over in the middle, without MD5 pass (the length that is
+    // announced and partitioned is the whole stream's)
+    if sess_kind == 5 {
+        o.source = Source::Stream(3);
+        o.stream_start = 2;
+        o.md5 = false;
+    }
     let default = match sess_kind {
-        0 | 3 | 4 => OtiSpec::new(Scheme::NoCode, 1424, 64, 0, true),
+        0 | 3 | 4 | 5 => OtiSpec::new(Scheme::NoCode, 1424, 64, 0, true),
         1 => OtiSpec::new(scheme, e, b * 3 + 1, 1, true),
         _ => OtiSpec::new(scheme, e * 2, b, 1, true),
     };
